@@ -165,6 +165,13 @@ type FuncContract struct {
 	SpecName string // extern pure: name usable inside contracts
 }
 
+// EncapDecl: `encapsulated T.f, T.g by F1, F2`: the listed fields are read and written only inside
+// the listed functions (checked over the whole package on every run).
+type EncapDecl struct {
+	Fields []string
+	Owners []string
+}
+
 type SpecFile struct {
 	Path    string
 	Pures   []*PureFunc
@@ -174,6 +181,7 @@ type SpecFile struct {
 	Axioms  []*Lemma
 	Immut   []string // immutable T.f declarations ("T.f")
 	Regexes []*RegexDecl
+	Encaps  []*EncapDecl
 	RawText string
 }
 
@@ -311,7 +319,7 @@ var clauseKeywords = map[string]bool{
 	"requires": true, "ensures": true, "establishes": true, "modifies": true, "loop": true, "at": true,
 	"property": true, "nopanic": true, "reveal": true, "pure": true, "func": true,
 	"ghost": true, "lemma": true, "axiom": true, "extern": true, "fresh": true,
-	"maypanic": true, "regex": true, "inline": true, "boundary": true, "immutable": true, "bounded": true, "opaque": true, "pathflag": true,
+	"maypanic": true, "regex": true, "objinvariant": true, "entryfact": true, "encapsulated": true, "inline": true, "boundary": true, "immutable": true, "bounded": true, "opaque": true, "pathflag": true,
 }
 
 func (p *parser) parseExpr(minPrec int) (Expr, error) {
@@ -738,6 +746,38 @@ func (p *parser) parseFile() (*SpecFile, error) {
 				return nil, err
 			}
 			sf.Immut = append(sf.Immut, tn+"."+p.next().s)
+		case "encapsulated":
+			p.next()
+			ed := &EncapDecl{}
+			for {
+				tn := p.next().s
+				if err := p.expectOp("."); err != nil {
+					return nil, err
+				}
+				ed.Fields = append(ed.Fields, tn+"."+p.next().s)
+				if p.isOp(",") {
+					p.next()
+					continue
+				}
+				break
+			}
+			if !p.isID("by") {
+				return nil, p.errf("encapsulated: expected 'by'")
+			}
+			p.next()
+			for {
+				l, err := p.parseFuncLabel()
+				if err != nil {
+					return nil, err
+				}
+				ed.Owners = append(ed.Owners, l)
+				if p.isOp(",") {
+					p.next()
+					continue
+				}
+				break
+			}
+			sf.Encaps = append(sf.Encaps, ed)
 		case "regex":
 			// regex <var> [Cxx] == `reference pattern`: the code's pattern denotes the reference language
 			p.next()
@@ -929,7 +969,10 @@ func (p *parser) parseClauses(fc *FuncContract) error {
 				return p.errf("establishes must have the form [cond ==>] ghostPred(args) or result == ghostFunc(args)")
 			}
 			fc.Clauses = append(fc.Clauses, &Clause{Kind: "establishes", E: e, Props: props, Label: label, Text: p.textSince(start)})
-		case "requires", "ensures":
+		case "requires", "ensures", "objinvariant", "entryfact":
+			// objinvariant: representation invariant of an encapsulated data structure — assumed at the
+			// entry of this (owner) function, an obligation at each of its returns, nothing at its call
+			// sites. entryfact: facts about what was allocated before the call (only !fresh atoms).
 			p.next()
 			props, label := p.parseClauseTag()
 			start := p.peek().pos
